@@ -58,6 +58,16 @@ def canon_exc(e: BaseException) -> List[Any]:
 
 # ------------------------------------------------------------------------------------------------ cases
 
+def _rejected_slice(lst) -> None:
+    """a slice assignment that is refused (an item of a class the list does not take): an exception, and the list as before"""
+    from basyx.aas import model
+    wrong = model.Capability(None) if lst.type_value_list_element is not model.Capability else model.ReferenceElement(None)
+    try:
+        lst.value[0:1] = [wrong]
+    except Exception:
+        pass
+
+
 class Case:
     """A set of root objects (descriptions + real objects), and a provider arrangement."""
     def __init__(self, descs: List[Any], stores: List[List[int]], churn: bool = False):
@@ -92,6 +102,7 @@ class Case:
                 del o.value[-1]
                 if len(o.value) < n:
                     o.value.add(last)
+                _rejected_slice(o)
             elif isinstance(o, model.SubmodelElementCollection) and len(o.value) >= 1:
                 # removing an element that merely LOOKS like a member (same idShort, another object) is refused
                 member = next(iter(o.value))
